@@ -30,8 +30,9 @@ R = Registry(
         "committed clean on every path; (R4) the MapperProperty.merge implementations read the source and write the "
         "destination only; (R5) every strategized property class implements merge; (R6) every call of Session._merge "
         "is either a top-level call (fresh memos, autoflush disabled around it) or a recursive one (own memos and load "
-        "passed through); (R7) the version counter of the source is compared with the merged instance's before any "
-        "attribute is copied and a mismatch raises StaleDataError."
+        "passed through), and no memo dictionary serves more than one top-level merge; (R7) the version counter of the source is compared with the merged instance's before any "
+        "attribute is copied and a mismatch raises StaleDataError; (R8) a MapperProperty.merge implementation that has read the "
+        "source value writes the destination on every path to its return, under load=True and under load=False."
     ),
     not_decided=(
         "attribute values after the merge, which rows Session.get loads, idempotence of a second merge, partially "
@@ -49,6 +50,10 @@ MERGE = f"{SESSION}::Session._merge"
 #: callees of Session._merge the rules match by name (never inlined into the normal form)
 MERGE_VOCABULARY = ("get", "_merge", "merge", "_update_impl", "_save_or_update_state", "_autoflush", "_flush_warning", "new_instance",
                     "_commit_all", "_get_state_attr_by_column", "_identity_key_from_state")
+
+
+#: callees of the MapperProperty.merge implementations the rules match by name
+IMPL_VOCABULARY = ("_merge", "set", "get", "get_impl", "get_collection", "_expire_attributes", "init_state_collection", "append_without_event")
 
 
 # ------------------------------------------------------------------------------------------ anchors of _merge
@@ -204,6 +209,12 @@ def r2(ctx):
         for n_, v_, s_ in name_stores(fm.node):
             by.setdefault(n_, []).append(v_)
         holds = {n_ for n_, vs in by.items() if all(v_ is not None and any(callee_is(c, "self._merge") for c in calls_in(v_)) for v_ in vs)}
+        # (the loop spelling of merge_all: `out = []` ... `out.append(self._merge(...))`: a list that receives nothing but _merge results)
+        for n_, vs in by.items():
+            if all(v_ is not None and ((isinstance(v_, ast.List) and not v_.elts) or (isinstance(v_, ast.Call) and dotted(v_.func) == "list" and not v_.args)) for v_ in vs):
+                adds = [c for c in calls_in(fm.node) if isinstance(c.func, ast.Attribute) and dotted(c.func.value) == n_ and c.func.attr in ("append", "extend", "insert", "__iadd__")]
+                if adds and all(c.func.attr == "append" and len(c.args) == 1 and any(callee_is(x, "self._merge") for x in calls_in(c.args[0])) for c in adds):
+                    holds.add(n_)
         good = bool(rv) and all(any(callee_is(c, "self._merge") for c in calls_in(v)) or (isinstance(v, ast.Name) and v.id in holds) for v in rv)
         ctx.check(good, f"{fm.key}:returns-merged", f"Session.{name} does not return the result of _merge", "return self._merge(...)", fm.loc)
 
@@ -222,7 +233,9 @@ def _impls(ctx):
     ctx.require(len(sig) == 9, "MapperProperty.merge signature changed")
     res = []
     for k in sorted(out):
-        fn = out[k]
+        # normal form: a private helper extracted from the implementation (`self._copy_value(...)`) is inlined at its call, aliases
+        # (`prop_key = self.key`, `stamp_only = not load`) resolved; the calls the rules recognise by name stay calls
+        fn = nf(ctx, out[k], keep=IMPL_VOCABULARY, alias="all")
         ctx.require(len(fn.params) == 9, f"{k}: signature differs from MapperProperty.merge")
         names = dict(zip(("self", "session", "source_state", "source_dict", "dest_state", "dest_dict", "load", "rec", "res"), fn.params))
         res.append((fn, names))
@@ -441,8 +454,57 @@ def _autoflush_disabled(pm, call) -> Optional[str]:
     return None
 
 
+_LOOPS = (ast.For, ast.AsyncFor, ast.While, ast.ListComp, ast.SetComp, ast.DictComp, ast.GeneratorExp)
+
+
+def _repeats(pm, node, stop) -> List[ast.AST]:
+    """The loops / comprehensions of `stop` (a function) that execute `node` repeatedly: node sits in their body, not in
+    the (once evaluated) iterable of a `for` statement or of a comprehension's first generator."""
+    out, prev, cur = [], node, pm.get(node)
+    while cur is not None and cur is not stop:
+        if isinstance(cur, (ast.For, ast.AsyncFor)):
+            if prev is not cur.iter:
+                out.append(cur)
+        elif isinstance(cur, ast.While):
+            out.append(cur)
+        elif isinstance(cur, (ast.ListComp, ast.SetComp, ast.DictComp, ast.GeneratorExp)):
+            if not (isinstance(prev, ast.comprehension) and prev is cur.generators[0] and _within(prev.iter, node)):
+                out.append(cur)
+        prev, cur = cur, pm.get(cur)
+    return out
+
+
+def _within(tree, node) -> bool:
+    return any(x is node for x in ast.walk(tree))
+
+
+def _is_new_dict(e) -> bool:
+    return (isinstance(e, ast.Dict) and not e.keys) or (isinstance(e, ast.Call) and isinstance(e.func, ast.Name) and e.func.id == "dict" and not e.args and not e.keywords)
+
+
+def _memo_origin(pm, fnode, call, e, memo_kws) -> Optional[str]:
+    """Where a memo argument of a Session._merge call comes from: "fresh" = an empty dict made for this very call (the
+    literal at the call, or a local every binding of which is an empty dict made once per execution of the call);
+    "shared" = an empty dict made in the caller, but ONE object serves several top-level merges (bound outside a loop /
+    comprehension that repeats the call, or handed to more than one call site); None = not a dict made by the caller."""
+    if _is_new_dict(e):
+        return "fresh"
+    if not isinstance(e, ast.Name) or fnode is None or e.id in function_params(fnode):
+        return None
+    binds = [(v, s) for n, v, s in name_stores(fnode) if n == e.id]
+    if not binds or not all(v is not None and _is_new_dict(v) for v, s in binds):
+        return None
+    reps = _repeats(pm, call, fnode)
+    if any(not all(any(r is x for x in _repeats(pm, s, fnode)) for v, s in binds) for r in reps):
+        return "shared"
+    users = {id(c2) for c2 in calls_in(fnode) if isinstance(c2.func, ast.Attribute) and c2.func.attr == "_merge"
+             and any(isinstance(kw(c2, k), ast.Name) and kw(c2, k).id == e.id for k in memo_kws)}
+    return "shared" if len(users) > 1 else "fresh"
+
+
 @R.rule("C45-R6", floor=7, template="T-SIBLING/T-GUARD",
-        desc="every call of Session._merge is either top-level (fresh {} for both memos) and then runs with autoflush "
+        desc="every call of Session._merge is either top-level (an empty dict made for that very call for both memos: the "
+             "literal, or a local bound once per execution of the call -- never one dict serving several top-level merges) and then runs with autoflush "
              "disabled (inside `with <session>.no_autoflush` or autoflush=False/finally), or recursive (passes its own "
              "_recursive, _resolve_conflict_map and load through); a private helper that wraps the recursive call is "
              "followed to its call sites, which are judged the same way")
@@ -466,7 +528,16 @@ def r6(ctx):
         n = counts[(q, what)]
         key = f"{q}:{what}" + (f":{n - 1}" if n > 1 else "")
         loc = f"{m.path}:{c.lineno}"
-        fresh = isinstance(a, ast.Dict) and not a.keys and isinstance(b, ast.Dict) and not b.keys
+        fnode = enclosing_function(pm, c)
+        oa, ob = (_memo_origin(pm, fnode, c, x, (rec_kw, res_kw)) if x is not None else None for x in (a, b))
+        if oa and ob and "shared" in (oa, ob):
+            which = ", ".join(f"{k}={unparse(x)}" for k, x, o in ((rec_kw, a, oa), (res_kw, b, ob)) if o == "shared")
+            ctx.violation(key, f"top-level Session._merge calls share one memo dictionary ({which}) instead of each starting with an empty one (as Session.merge() does per "
+                               "object): a source object that an earlier merge of the batch reached through a relationship -- where the reverse relationship is "
+                               "deliberately skipped -- is answered from the memo when it is itself merged, so the attributes / collections loaded on it are never "
+                               "copied (merge_all([child, parent]) loses parent.children; merging the same parent again then changes the result)", loc)
+            return
+        fresh = oa == "fresh" and ob == "fresh"
         if fresh:
             how = _autoflush_disabled(pm, c)
             ctx.check(how is not None and dotted(ld) == "load", key,
@@ -474,7 +545,6 @@ def r6(ctx):
                       "object autoflushes the half-populated merged instance -- premature INSERT with missing attributes (IntegrityError for NOT NULL columns) "
                       "where Session.merge() of the same object succeeds", f"fresh memos, {how}", loc)
             return
-        fnode = enclosing_function(pm, c)
         params = function_params(fnode) if fnode is not None else []
         encl = fnode.name if fnode is not None else "<module>"
         own = all(isinstance(x, ast.Name) and x.id in params for x in (a, b, ld)) and len({x.id for x in (a, b, ld)}) == 3
@@ -553,6 +623,90 @@ def r7(ctx):
     ctx.require(unversioned, "_merge: no `mapper.version_id_col is not None` test")
     w = g.must_pass([g.entry], m.prop_merge, tests, edge_ok=lambda a, b, lab: lab != "exc" and (a, lab) not in unversioned)
     ctx.check(bool(tests) and w is None, f"{f.key}:version-check-before-copy", "attributes are copied onto the merged instance before the version comparison", "comparison dominates the property loop", f.loc, w)
+
+
+# ------------------------------------------------------------------------------------------ R8
+def _tri(e, env: Dict[str, bool]) -> Optional[bool]:
+    """three-valued truth of a test under the assumptions `env` ({name: bool}); None = not determined by them."""
+    if isinstance(e, ast.Name):
+        return env.get(e.id)
+    if isinstance(e, ast.Constant) and isinstance(e.value, bool):
+        return e.value
+    if isinstance(e, ast.UnaryOp) and isinstance(e.op, ast.Not):
+        v = _tri(e.operand, env)
+        return None if v is None else not v
+    if isinstance(e, ast.BoolOp):
+        vs = [_tri(v, env) for v in e.values]
+        if isinstance(e.op, ast.And):
+            return False if any(v is False for v in vs) else (True if all(v is True for v in vs) else None)
+        return True if any(v is True for v in vs) else (False if all(v is False for v in vs) else None)
+    return None
+
+
+def _assuming(g, env):
+    """edge filter: normal edges, minus the branch outcomes the assumptions refute (independent of how the test is spelt)."""
+    memo: Dict[int, Optional[bool]] = {}
+
+    def ok(a, b, lab):
+        if lab == "exc":
+            return False
+        n = g.nodes[a]
+        if n.kind == "test" and lab in ("true", "false") and hasattr(n.stmt, "test"):
+            if a not in memo:
+                memo[a] = _tri(n.stmt.test, env)
+            if memo[a] is not None and memo[a] != (lab == "true"):
+                return False
+        return True
+    return ok
+
+
+def _own_parts(n):
+    return own_exprs(n.stmt) if n.stmt is not None and isinstance(n.stmt, ast.stmt) and n.kind in ("stmt", "test", "for", "with_enter") else []
+
+
+@R.rule("C45-R8", floor=4, template="T-PATH",
+        desc="each MapperProperty.merge implementation delivers what it read: once the source value has been read "
+             "(source_dict[<key>] / a call on (source_state, source_dict)) every normal path to the return writes the "
+             "destination (dest_dict[<key>] = ..., or a non-reading call on (dest_state, dest_dict)); judged separately under "
+             "load=True and load=False -- no path may skip the copy on account of the destination's own state")
+def r8(ctx):
+    for fn, p in _impls(ctx):
+        g = ctx.cfg(fn)
+        ss, sd, ds, dd, ld = p["source_state"], p["source_dict"], p["dest_state"], p["dest_dict"], p["load"]
+        reads, writes = [], []
+        for n in g.nodes:
+            rd = wr = False
+            if n.kind == "stmt" and isinstance(n.stmt, (ast.Assign, ast.AugAssign, ast.AnnAssign)):
+                tg = n.stmt.targets if isinstance(n.stmt, ast.Assign) else [n.stmt.target]
+                wr = any(isinstance(t, ast.Subscript) and dotted(t.value) == dd for t in tg)
+            for part in _own_parts(n):
+                for x in ast.walk(part):
+                    if isinstance(x, ast.Subscript) and isinstance(x.ctx, ast.Load) and dotted(x.value) == sd:
+                        rd = True
+                    if isinstance(x, ast.Call) and isinstance(x.func, ast.Attribute):
+                        first2 = [dotted(a) for a in x.args[:2]]
+                        if first2 == [ss, sd]:
+                            rd = True
+                        # a call on the destination that is not a read (`impl.get(dest_state, dest_dict, ...)` pre-loads, `get_impl` looks up)
+                        if not x.func.attr.startswith("get") and (first2 == [ds, dd] or (dotted(x.func.value) == ds and first2[:1] == [dd])):
+                            wr = True
+            if wr:
+                writes.append(n.id)
+            elif rd:
+                reads.append(n.id)
+        ctx.require(writes, f"{fn.key}: no write of the destination (dest_dict[...] = / call on (dest_state, dest_dict)) found")
+        for pol in (True, False):
+            ok = _assuming(g, {ld: pol})
+            live = g.reachable([g.entry], edge_ok=ok)
+            starts = [r for r in reads if r in live]
+            ctx.require(starts, f"{fn.key}: no read of the source value is reachable with load={pol}")
+            w = g.must_pass(starts, [g.exit], writes, edge_ok=ok)
+            ctx.check(w is None, f"{fn.key}:source-value-reaches-destination[load={pol}]",
+                      f"with load={pol} the value read from the given object can be dropped: there is a path from the read to the return that never writes the merged "
+                      "instance, so what it takes depends on something other than the source (e.g. the destination's pending history) -- the merged instance keeps a "
+                      "value that differs from the one loaded on the given object" + ("" if pol else "; with load=False _merge() then commits it as clean, so the "
+                      "difference is never flushed and a second merge of the same object changes the result"),
+                      f"{len(starts)} read(s) of the source, every path to the return passes one of {len(writes)} destination write(s)", fn.loc, w)
 
 
 # ------------------------------------------------------------------------------------------ self-test battery
@@ -812,3 +966,54 @@ R.mutant("merge-related-helper-fresh-conflict-map", RELS, chain(
         "                obj = self._merge_related_instance(\n                    session, current, load, _recursive, {}\n                )\n                if obj is not None:\n                    dest_list.append(obj)\n"),
     sub("    def _value_as_iterable(\n",
         "    def _merge_related_instance(self, session, current, load, _recursive, _resolve_conflict_map):  # type: ignore[no-untyped-def]  # noqa: E501\n        current_state = attributes.instance_state(current)\n        current_dict = attributes.instance_dict(current)\n        _recursive[(current_state, self)] = True\n        return session._merge(\n            current_state,\n            current_dict,\n            load=load,\n            _recursive=_recursive,\n            _resolve_conflict_map=_resolve_conflict_map,\n        )\n\n    def _value_as_iterable(\n")), "C45-R6")
+
+# ---- round-2 seeds (str2-s): C45_1 = merge_all shares its memos across the batch; C45_2 = ColumnProperty.merge(load=False) keeps a pending destination value
+_MA_OLD = ("        with self.no_autoflush:\n            return [\n                self._merge(\n                    object_state(instance),\n"
+           "                    attributes.instance_dict(instance),\n                    load=load,\n                    options=options,\n"
+           "                    _recursive={},\n                    _resolve_conflict_map={},\n                )\n                for instance in instances\n            ]\n")
+R.mutant("merge-all-shares-memos-across-batch", SESSION,
+         sub(_MA_OLD, "        seen: Dict[Any, object] = {}\n        conflicts: Dict[Any, object] = {}\n        with self.no_autoflush:\n            return [\n                self._merge(\n"
+                      "                    object_state(instance),\n                    attributes.instance_dict(instance),\n                    load=load,\n                    options=options,\n"
+                      "                    _recursive=seen,\n                    _resolve_conflict_map=conflicts,\n                )\n                for instance in instances\n            ]\n"), "C45-R6")
+R.mutant("merge-all-shares-conflict-map-only", SESSION,
+         sub(_MA_OLD, "        with self.no_autoflush:\n            conflicts: Dict[Any, object] = dict()\n            merged_all = []\n            for instance in instances:\n"
+                      "                merged_all.append(\n                    self._merge(\n                        object_state(instance),\n                        attributes.instance_dict(instance),\n"
+                      "                        load=load,\n                        options=options,\n                        _recursive={},\n                        _resolve_conflict_map=conflicts,\n"
+                      "                    )\n                )\n            return merged_all\n"), "C45-R6")
+R.mutant("merge-frozen-result-memo-hoisted-out-of-row-loop", LOADING,
+         sub("        result = []\n        for newrow in frozen_result._rewrite_rows():\n            for i in mapped_entities:\n                if newrow[i] is not None:\n                    newrow[i] = session._merge(\n"
+             "                        attributes.instance_state(newrow[i]),\n                        attributes.instance_dict(newrow[i]),\n                        load=load,\n                        _recursive={},\n",
+             "        result = []\n        seen_states = {}\n        for newrow in frozen_result._rewrite_rows():\n            for i in mapped_entities:\n                if newrow[i] is not None:\n                    newrow[i] = session._merge(\n"
+             "                        attributes.instance_state(newrow[i]),\n                        attributes.instance_dict(newrow[i]),\n                        load=load,\n                        _recursive=seen_states,\n"), "C45-R6")
+R.mutant("benign-merge-all-loop-with-per-object-memo-locals", SESSION,
+         sub(_MA_OLD, "        with self.no_autoflush:\n            merged_all = []\n            for instance in instances:\n                seen: Dict[Any, object] = {}\n                conflicts: Dict[Any, object] = dict()\n"
+                      "                merged_all.append(\n                    self._merge(\n                        object_state(instance),\n                        attributes.instance_dict(instance),\n"
+                      "                        load=load,\n                        options=options,\n                        _recursive=seen,\n                        _resolve_conflict_map=conflicts,\n"
+                      "                    )\n                )\n            return merged_all\n"), None)
+R.mutant("benign-merge-memo-locals", SESSION,
+         sub("        with self.no_autoflush:\n            return self._merge(\n                object_state(instance),\n                attributes.instance_dict(instance),\n                load=load,\n"
+             "                options=options,\n                _recursive={},\n                _resolve_conflict_map={},\n            )\n\n    def merge_all(",
+             "        seen: Dict[Any, object] = {}\n        conflicts: Dict[Any, object] = {}\n        with self.no_autoflush:\n            return self._merge(\n                object_state(instance),\n"
+             "                attributes.instance_dict(instance),\n                load=load,\n                options=options,\n                _recursive=seen,\n                _resolve_conflict_map=conflicts,\n            )\n\n    def merge_all("), None)
+_CM_OLD = "            if not load:\n                dest_dict[self.key] = value\n            else:\n                impl = dest_state.get_impl(self.key)\n                impl.set(dest_state, dest_dict, value, None)\n"
+R.mutant("column-merge-keeps-pending-destination-value-without-load", PROPS,
+         sub(_CM_OLD, "            if not load:\n                if self.key not in dest_state.committed_state:\n                    dest_dict[self.key] = value\n            else:\n"
+                      "                impl = dest_state.get_impl(self.key)\n                impl.set(dest_state, dest_dict, value, None)\n"), "C45-R8")
+R.mutant("column-merge-skips-set-when-destination-loaded", PROPS,
+         sub(_CM_OLD, "            if not load:\n                dest_dict[self.key] = value\n            elif self.key not in dest_dict:\n                impl = dest_state.get_impl(self.key)\n"
+                      "                impl.set(dest_state, dest_dict, value, None)\n"), "C45-R8")
+R.mutant("relationship-merge-scalar-none-not-copied", RELS,
+         sub("            else:\n                obj = None\n\n            if not load:\n                dest_dict[self.key] = obj\n",
+             "            else:\n                return\n\n            if not load:\n                dest_dict[self.key] = obj\n"), "C45-R8")
+R.mutant("relationship-merge-empty-collection-not-copied", RELS,
+         sub("            if not load:\n                coll = attributes.init_state_collection(\n", "            if not dest_list:\n                pass\n            elif not load:\n                coll = attributes.init_state_collection(\n"), "C45-R8")
+R.mutant("benign-column-merge-copy-extracted-early-return", PROPS, chain(
+    sub("            value = source_dict[self.key]\n\n" + _CM_OLD, "            self._merge_value(source_dict[self.key], dest_state, dest_dict, load)\n"),
+    sub("    def copy(self) -> ColumnProperty[_T]:\n", "    def _merge_value(self, value, dest_state, dest_dict, load):  # type: ignore[no-untyped-def]\n        if load:\n            dest_impl = dest_state.get_impl(self.key)\n"
+                                                        "            dest_impl.set(dest_state, dest_dict, value, None)\n            return\n        dest_dict[self.key] = value\n\n    def copy(self) -> ColumnProperty[_T]:\n")), None)
+R.mutant("benign-column-merge-stamping-flag-local", PROPS,
+         sub(_CM_OLD, "            stamp_only = not load\n            if stamp_only:\n                dest_dict[self.key] = value\n            else:\n                impl = dest_state.get_impl(self.key)\n"
+                      "                impl.set(dest_state, dest_dict, value, None)\n"), None)
+R.mutant("benign-relationship-merge-scalar-early-return", RELS,
+         sub("            if not load:\n                dest_dict[self.key] = obj\n            else:\n                dest_state.get_impl(self.key).set(\n                    dest_state, dest_dict, obj, None\n                )\n",
+             "            if not load:\n                dest_dict[self.key] = obj\n                return\n            dest_impl_ = dest_state.get_impl(self.key)\n            dest_impl_.set(dest_state, dest_dict, obj, None)\n"), None)
